@@ -98,3 +98,61 @@ Definition screen_locked (m : screen_method) : bool :=
 Definition screen_covers (tbl : list screen_method) : bool :=
   forallb (fun n => existsb (fun m => String.eqb (m_name m) n && m_in_base m && m_touches_tty m) tbl)
           expected_screen_methods.
+
+(** ** The hand-over decision of [_process_start_wrapper] ([utils.py:759-779])
+
+    The translator also reads the [if] / [elif] / [else] chain that decides, inside
+    [with _tty_lock:], what the child process is handed ([self._tty_lock = ...]) into a
+    decision table.  Its conditions are boolean expressions over
+    - [CThreadLock]: [isinstance(_tty_lock, _rlock_type)] (the global is still the thread lock),
+    - [CConf f]: a module global of [utils.py] that holds a library SETTING, read as a truth
+      value (0 = [_queries_enabled], 1 = [_swap_win_size], 2 = [_query_timeout],
+      3 = [_tty_fd], 9 = any other module global);
+    anything else in a condition is refused by the translator.  The outcome of a branch:
+    - [ONew]: [self._tty_lock = _tty_lock = mp_RLock()] (a new shared lock replaces the
+      global and is handed over; the [except ImportError] arm of a platform without
+      [multiprocessing.synchronize] is outside the property),
+    - [OGlobal]: [self._tty_lock = _tty_lock] (the current global is handed over),
+    - [ONone]: [self._tty_lock = None] (the child is handed nothing).
+    [h_run_installs]: [_process_run_wrapper] begins with
+    [if self._tty_lock: _tty_lock = self._tty_lock] (the child installs what it was handed,
+    unconditionally otherwise). *)
+Inductive hcond :=
+| CTrue | CFalse
+| CThreadLock
+| CConf (f : nat)
+| CNot (a : hcond)
+| CAnd (a b : hcond)
+| COr (a b : hcond).
+
+Inductive houtcome := ONew | OGlobal | ONone.
+
+Record handover_table := {
+  h_under_lock : bool;                     (* the chain is the body of [with _tty_lock:] *)
+  h_branches : list (hcond * houtcome);    (* [if] / [elif], in source order *)
+  h_else : houtcome;
+  h_run_installs : bool
+}.
+
+Fixpoint eval_hcond (c : hcond) (is_t : bool) (q : nat -> bool) : bool :=
+  match c with
+  | CTrue => true
+  | CFalse => false
+  | CThreadLock => is_t
+  | CConf f => q f
+  | CNot a => negb (eval_hcond a is_t q)
+  | CAnd a b => eval_hcond a is_t q && eval_hcond b is_t q
+  | COr a b => eval_hcond a is_t q || eval_hcond b is_t q
+  end.
+
+Fixpoint eval_branches (l : list (hcond * houtcome)) (d : houtcome) (is_t : bool) (q : nat -> bool)
+  : houtcome :=
+  match l with
+  | [] => d
+  | (c, o) :: r => if eval_hcond c is_t q then o else eval_branches r d is_t q
+  end.
+
+(** what the child is handed when the global is / is not the thread lock, under the
+    configuration [q] of the starting process *)
+Definition eval_handover (tbl : handover_table) (is_t : bool) (q : nat -> bool) : houtcome :=
+  eval_branches (h_branches tbl) (h_else tbl) is_t q.
